@@ -396,12 +396,41 @@ func c16Case(run *evid.Run, i int, j *Journal) {
 		}
 	}
 	useEmpty := i%9 == 4
+	// every fourth pair: the SOURCE is a partial log - it was itself trimmed by a size-bounded merge, so its oldest
+	// entries name predecessors it does not hold (and the destination may not hold them either)
+	partialSrc := i%4 == 3 && !useEmpty
+	keepB := -1
 	exec := func() *hx.Exec {
 		x := hx.NewExec(h)
 		for k := range h.Steps {
 			x.Do(k)
 		}
+		if partialSrc {
+			if keepB < 0 {
+				keepB = 0
+				if n := x.Logs[b].Len(); n > 1 {
+					keepB = 1 + int(uint64(run.Seed*31+int64(i))%uint64(n-1))
+				}
+			}
+			if keepB > 0 {
+				// merged with a third replica (or nothing) under a bound: a window with branches of different depth
+				third := x.Empty
+				if h.Replicas > 2 {
+					third = x.Logs[(b+1)%h.Replicas]
+					if (b+1)%h.Replicas == a {
+						third = x.Logs[(b+2)%h.Replicas]
+					}
+				}
+				func() {
+					defer func() { _ = recover() }()
+					_, _ = x.Logs[b].Join(third, keepB)
+				}()
+			}
+		}
 		return x
+	}
+	if partialSrc {
+		run.Count("pairs_with_a_partial_source", 1)
 	}
 	src := func(x *hx.Exec) *ipfslog.IPFSLog {
 		if useEmpty {
@@ -416,6 +445,14 @@ func c16Case(run *evid.Run, i int, j *Journal) {
 		return
 	}
 	full := hx.Observe(ref.Logs[a])
+	// the reference itself is checked against the model: the unbounded merge holds the union of both logs (the
+	// source's entries are all reachable from its heads, also when the source is a trimmed window)
+	if want := model.Union(oa.Set, ob.Set); !model.SameKeys(full.Set, want) && model.Closed(oa.Set) {
+		m := histSample(h)
+		m["pair"] = fmt.Sprintf("r%d.Join(r%d, -1), source partial: %v (trimmed to %d)", a, b, partialSrc, keepB)
+		run.Violate("C16/unbounded-not-union", det("partial_source", partialSrc), m, "the unbounded merge holds %d entries, the union of both logs has %d", len(full.Set), len(want))
+		return
+	}
 	total := len(full.Values)
 	tot := totalOrder(h.Order, full.Set)
 	shape := model.ShapeDigest(full.Set)
